@@ -288,6 +288,10 @@ def gen_control_case(rng, weights=None, maxdepth=4, allow_cut_p=0.7, nclauses=No
         if r < 0.30 and cut_ok and allow_cut:
             return ('cut',)
         pn = rng.choice(['z', 'o', 'm', 'm', 'n'])
+        if nv[0] and rng.random() < 0.06:
+            # output unification: a head variable is given a structure / a constant in the body (after a cut, in a
+            # branch, ...): with a caller that already bound that argument this is a test, not an assignment
+            return ('call', C('=', V('V%d' % rng.randrange(1, nv[0] + 1)), rng.choice([C('s', A('m0')), C('s', A('n1')), A('m1'), A('o0')])))
         if nv[0] and rng.random() < 0.07:
             # a clause-local variable (not in the head) aliased to a head variable, directly or inside a structure:
             # what a later goal binds through the local name is visible through the head variable
@@ -335,6 +339,10 @@ def gen_control_case(rng, weights=None, maxdepth=4, allow_cut_p=0.7, nclauses=No
             if ar != len(vars_):
                 hv2 = [V('Z%d' % i) for i in range(ar)]
                 clauses.insert(rng.randrange(len(clauses) + 1), (C('t', *hv2) if hv2 else A('t'), ('call', C('o', hv2[0] if hv2 else V('_')))))
+    if vars_ and rng.random() < 0.3:
+        # the caller binds some arguments before the call (queries with bound and partially bound arguments)
+        pre = ('call', C('=', rng.choice(vars_), rng.choice([A('m0'), A('n1'), A('o0'), C('s', A('m0')), C('s', A('x')), C('s', V('Pre'))])))
+        tcall = ('and', pre, tcall)
     clauses.append((C('top', V('W'), *vars_), ('and', ('call', C('m', V('W'))), tcall)))
     return clauses, 'top', len(vars_) + 1
 
